@@ -2,6 +2,7 @@ from plans.common import *
 
 H = "harness/c01_tasks.cpp"
 L1 = "harness/c01_mailbox_l1.cpp"
+L1S = "harness/c01_slot_l1.cpp"
 PLAN = dict(
     level="exploration",
     rule="case = generated task-tree program (1-3 external threads, <=24 units: task_group run/defer/run_and_wait/wait/cancel, nested groups, "
@@ -15,12 +16,16 @@ PLAN = dict(
         quick=[det("rel", H, "cs-rel", 16, 40, 4, tso=True, time_cap=30),
                det("dbg", H, "cs-dbg", 16, 12, 4, tso=True, time_cap=25, args=["--no-soft0"]),
                det("l1-mailbox", L1, "cs-rel", 4, 250, 6, tso=True, time_cap=20, optional=True, case_prefix="mbox "),
+               det("l1-slot", L1S, "cs-rel", 8, 250, 6, tso=True, time_cap=25, optional=True, case_prefix="slot "),
+               det("l1-slot-dbg", L1S, "cs-dbg", 4, 120, 6, tso=True, time_cap=25, optional=True, case_prefix="slot "),
                tsan("C01", 4, 80)],
         thorough=[det("rel", H, "cs-rel", 16, 1200, 5, tso=True, time_cap=300),
                   det("dbg", H, "cs-dbg", 16, 300, 5, tso=True, time_cap=200, args=["--no-soft0"]),
                   det("enum-wake", H, "cs-rel", 16, 40, 2, tso=True, time_cap=120, enum="wake", enum_cap=150),
                   det("enum-sbload", H, "cs-rel", 16, 40, 2, tso=True, time_cap=120, enum="sbload", enum_cap=150),
                det("l1-mailbox", L1, "cs-rel", 16, 3000, 8, tso=True, time_cap=120, optional=True, case_prefix="mbox "),
+               det("l1-slot", L1S, "cs-rel", 16, 4000, 8, tso=True, time_cap=180, optional=True, case_prefix="slot "),
+               det("l1-slot-dbg", L1S, "cs-dbg", 16, 1500, 8, tso=True, time_cap=180, optional=True, case_prefix="slot "),
                tsan("C01", 16, 600)],
     ),
 )
